@@ -482,9 +482,9 @@ def prove(run: lib.Run):
     base = run.findings
 
     def merged():
-        got = base()
-        ids = {e["id"] for e in got}
-        return got + [e for e in local_findings() if e["id"] not in ids and e["property"] == "C17"]
+        mine = [e for e in local_findings() if e["property"] == "C17"]
+        ids = {e["id"] for e in mine}          # findings.d/C17.json is the source of truth for C17 entries
+        return [e for e in base() if e["id"] not in ids] + mine
     run.findings = merged
     cat = get_cat()
     text, problems = reflect_tables(cat)
@@ -548,6 +548,37 @@ def correspond_history(run: lib.Run, cat: Cat):
         bad = list(range(len(cases)))
     else:
         bad = lib.parse_nat_list(res[-1])
+    # args() carries no cache: histories over ==-equal, differently ordered / spelled annotations get cold answers
+    L = lambda *ls: ("literal", [list(x) for x in ls])
+    apairs = history_cases(cat) + [
+        (("union", "U", [I_, S_]), ("union", "U", [S_, I_])) for I_, S_ in [(C("int"), C("str"))]] + [
+        (("union", "O", [C("int"), NONE_T]), ("union", "U", [NONE_T, C("int")])),
+        (("union", "P", [C("int"), C("str")]), ("union", "P", [C("str"), C("int")])),
+        (("union", "U", [C("int"), C("str"), NONE_T]), ("union", "U", [NONE_T, C("str"), C("int")])),
+        (L(("i", 1), ("n",)), L(("n",), ("i", 1))), (L(("i", 1), ("s", "a")), L(("s", "a"), ("i", 1)))]
+    acases, acoq = [], []
+    for da, db in apairs:
+        a, b = cat.build(da), cat.build(db)
+        impl.clear_caches()
+        try:
+            obs = [[cat.describe(x) for x in I.args(o)] for o in (a, b, a, b)]
+        except Exception as e:  # noqa: BLE001
+            acases.append({"history": [da, db], "error": repr(e)}); acoq.append(None)
+            continue
+        acases.append({"fn": "args", "history": [da, db, da, db], "observed": obs})
+        acoq.append("(%s, %s)" % (coq_list([cat.emit(x) for x in (da, db, da, db)], "ity"),
+                                  coq_list([coq_list([cat.emit(x) for x in o], "ity") for o in obs], "(list ity)")))
+    abad = [i for i, c in enumerate(acoq) if c is None]
+    live = [i for i, c in enumerate(acoq) if c is not None]
+    ares = run.coq_eval("cases_args_history.v", hdr + "Definition cases : list args_hist_case :=\n " +
+                        coq_list([acoq[i] for i in live]) + ".\nEval vm_compute in args_hist_mismatches cases.\n")
+    if ares is None:
+        run.oblige("evaluate:cases_args_history.v", False, "model evaluation did not compile")
+        abad = list(range(len(acases)))
+    else:
+        abad += [live[j] for j in lib.parse_nat_list(ares[-1])]
+    run.record_corr("inspect-args-history", len(acases), [acases[i] for i in sorted(abad)], len(acases),
+                    {"pairs": len(apairs)})
     flips = sum(1 for c in cases if len(set(c["observed"])) > 1)
     run.record_corr("inspect-history", len(cases), [cases[i] for i in bad], len(cases),
                     {"pairs": len(history_cases(cat)), "histories_with_a_flip": flips})
@@ -605,6 +636,8 @@ def spelling_pairs(cat: Cat, cases):
                 out.append(("union-order", d, rot))
             except Exception:  # noqa: BLE001
                 pass
+        if d[0] == "literal" and len(d[1]) >= 2:
+            out.append(("literal-order", d, ("literal", d[1][1:] + d[1][:1])))
     return out
 
 
@@ -637,7 +670,15 @@ def search(run: lib.Run, broken):
     pairs = spelling_pairs(cat, cases)
     for tag, da, db in pairs:
         a, b = cat.build(da), cat.build(db)
-        if tag == "union-order":
+        if tag in ("union-order", "literal-order"):
+            # ==-equal annotations that differ in member ORDER, asked in sequence in one process
+            fails += O.check_history_pair(da, a, db, b, O.ACCESSORS_HISTORY, tag)
+            fails += O.check_history_pair(db, b, da, a, O.ACCESSORS_HISTORY, tag)
+        if tag == "union-spelling":
+            fails += O.check_history_pair(da, a, db, b, O.ACCESSORS_HISTORY, tag)
+        if tag == "literal-order":
+            fails += O.check_history_pair(da, a, db, b, O.SPECIAL_FORM_PREDS, tag)
+        elif tag == "union-order":
             fails += O.check_history_pair(da, a, db, b, O.UNION_ORDER_FREE, tag)
             fails += O.check_spelling_pair(da, a, db, b, O.UNION_ORDER_FREE, tag)
         elif tag == "bare-spelling":
@@ -672,7 +713,8 @@ def replay(payload):
     inp = payload["input"]
     site = payload.get("site")
     fs = []
-    if payload.get("symptom", "").startswith(("depends on the spelling", "answer depends on which")):
+    if payload.get("symptom", "").startswith(("depends on the spelling", "answer depends on which",
+                                              "disagrees with typing.get_args on the object itself")):
         da, db = [_tuplify(x) for x in inp]
         a, b = cat.build(da), cat.build(db)
         fs = O.check_spelling_pair(da, a, db, b, [site], "replay") + O.check_history_pair(da, a, db, b, [site], "replay")
@@ -682,7 +724,7 @@ def replay(payload):
         fs = O.check_object(d, cat.build(d), kind)
     fs = [f for f in fs if f["site"] == site] if site else fs
     if payload.get("symptom"):
-        fs = [f for f in fs if f["symptom"] == payload["symptom"]] or fs
+        fs = [f for f in fs if f["symptom"] == payload["symptom"]]
     return {"fails": bool(fs), "failures": fs}
 
 
